@@ -575,6 +575,13 @@ func main() {
 							}
 							fail("restart-recomputes-another-proposer-and-replay-diverges", "after a kill at height > 1 the restarted node names another proposer for the same round ("+p0+" before, "+p1+" after): the replay rejects the proposal it had accepted and the round state differs", b1+" "+v1, b0+" "+v0)
 							ledgerOff = true
+						} else if stepOnly(b0, b1) && v0 == v1 {
+							// everything restored but the step, and the replayed node stands at NewHeight: the node had
+							// left NewHeight inside the handling of the previous height's last precommit (with
+							// skip_timeout_commit and every precommit in, addVote enters the new height's round 0
+							// directly) - an input logged BEFORE the height marker the replay starts from
+							r.Count("finding.step-after-skipped-commit-timeout")
+							fail("step-reached-by-skipping-the-commit-timeout-is-not-restored", "kill, restart, WAL replay: votes, proposal and lock are restored, the step is not - the node entered round 0 of this height while handling the previous height's last precommit (skip_timeout_commit), which is logged before the height marker; the replayed node waits at NewHeight for the commit timeout and then takes the same steps again", b1+" "+v1, b0+" "+v0)
 						} else {
 							fail("replayed-state-differs-from-pre-crash-state", "kill after a processed input, restart, WAL replay: the round state or the votes differ from the state before the kill", b1+" "+v1, b0+" "+v0)
 						}
@@ -663,4 +670,22 @@ func main() {
 		}
 		_ = sort.Ints
 	}
+}
+
+// stepOnly: two digests that differ in the step only, the second one standing at NewHeight
+func stepOnly(a, b string) bool {
+	fa, fb := strings.Fields(a), strings.Fields(b)
+	if len(fa) != len(fb) {
+		return false
+	}
+	diff := 0
+	for i := range fa {
+		if fa[i] != fb[i] {
+			diff++
+			if !strings.HasPrefix(fa[i], "s=") || fb[i] != "s=NewHeight" {
+				return false
+			}
+		}
+	}
+	return diff == 1
 }
